@@ -28,6 +28,7 @@ import (
 
 func main() {
 	r := report.New("C02", "exploration")
+	retR = r
 	thorough := r.Thorough()
 	r.SetRule("every CQL type tree (21 scalars; list/set/map/tuple/UDT over all scalars at depth 1 and over the reduced alphabet " +
 		"{int,bigint,text,varint,boolean,uuid,timestamp} at depth 2) x protocol version (1-5; tuple/UDT 3-5; depth 2: 2,3 quick / all thorough) " +
